@@ -47,10 +47,12 @@ def plan(tier):
             gen.append("vk_proof! {\n" + ATTR % (4 * k + 8) + STUBS + "fn %s() { array_elems::<%d>(%d); }\n}\n" % (fn, k, count))
             p.add(MOD, H(fn, {"frame": "array", "declared_count": count, "elements_received": k, "element": "+x CRLF, x symbolic"}, "array_elems"))
     for k, count in (((1, 1), (0, 1), (1, 0)) if tier == "quick" else ((1, 1), (0, 1), (1, 0), (2, 1), (2, 2), (1, 2))):
-        fn = "c21_array_nulls_k%d_count%d" % (k, count)
-        gen.append("vk_proof! {\n" + ATTR % (3 * k + 8) + STUBS + "fn %s() { array_nulls::<%d>(%d); }\n}\n" % (fn, k, count))
-        p.add(MOD, H(fn, {"frame": "array", "declared_count": count, "elements_received": k, "element": "_ CRLF (3 bytes)",
-                          "trailing": "0|1 symbolic byte of a following frame"}, "array_elems"))
+        for tr in (0, 1):
+            fn = "c21_array_nulls_k%d_count%d_t%d" % (k, count, tr)
+            gen.append("vk_proof! {\n" + ATTR % (3 * k + 8) + STUBS + "fn %s() { array_nulls::<%d>(%d, %s); }\n}\n"
+                       % (fn, k, count, "true" if tr else "false"))
+            p.add(MOD, H(fn, {"frame": "array", "declared_count": count, "elements_received": k, "element": "_ CRLF (3 bytes)",
+                              "trailing": "%d symbolic byte of a following frame" % tr}, "array_elems"))
     for d in ((6, 12) if tier == "quick" else (6, 12, 19, 20)):
         for kind, call in (("array", "array_huge_count"), ("bulk", "bulk_huge_count")):
             fn = "c21_%s_count_%ddigits" % (kind, d)
